@@ -171,7 +171,7 @@ class OracleReal:
             self.history = []
             self.check.on_reset()
         self.history.append(line)
-        audit = line.startswith(("obs", "reset"))
+        audit = line.startswith(("obs", "reset", "reload"))     # `reload`: the objects are replaced by their loaded copies
         pre = None if audit else self.check.pre(self.inner, line)
         out = self.inner.step(line)
         if not audit:
